@@ -9,10 +9,19 @@
      chain_row lay data j     the j-th stored sample
      eff_thin                 the thinning get_interval uses (thin, or max(n // count, 1))
      burned_thinned           the burned / thinned chain as (log-probability, row) pairs
-     low_fraction / top_fraction   its `cutoff` least probable rows / all other rows *)
+     low_fraction / top_fraction   its `cutoff` least probable rows / all other rows
+   Histories (Model/ReadoutsSteps.v):
+     store = (data, probs)    what the read-outs slice
+     step                     one call of take_step / advance: s_evals calls of the posterior (or its
+                              gradient), then the rows s_rows and log-probabilities s_probs it stores;
+                              s_crash = k >= 1: the k-th of those calls raises (Ctrl-C, an error)
+     run_step / run_history   the store after one call / after a sequence of calls
+     completed s              the call returned normally
+     completed_rows / completed_probs   what the completed calls of a history stored, in order
+     all_rows lay data n      the full chain as a list of rows *)
 From Coq Require Import List ZArith Arith QArith Qround Sorting.Sorted Sorting.Permutation.
 Close Scope Q_scope.
-From IT Require Import Model.Readouts Proofs.ReadoutsProofs.
+From IT Require Import Model.Readouts Proofs.ReadoutsProofs Model.ReadoutsSteps Proofs.ReadoutsStepsProofs.
 Import ListNotations.
 
 (* ---- the slice law: for every list, every burn >= 0 and thin >= 1 *)
@@ -127,6 +136,87 @@ Theorem C14_interval_fraction : forall (f : Q) (size cutoff : nat),
    inject_Z (Z.of_nat size) - inject_Z (Z.of_nat cutoff) - 1 < f * inject_Z (Z.of_nat size))%Q.
 Proof. exact interval_fraction. Qed.
 
+(* ---- histories: calls that are interrupted from inside the posterior *)
+(* whichever evaluation of a call raises, the stored chain is exactly what it was *)
+Theorem C14_interrupted_call_leaves_chain : forall lay s st,
+  1 <= s_crash s <= s_evals s -> run_step lay st s = st.
+Proof. exact interrupted_step_no_effect. Qed.
+
+(* every evaluation of a call (completed or interrupted) sees the chain as it was before the call:
+   nothing is stored before the last evaluation has returned *)
+Theorem C14_call_evaluations_see_old_chain : forall lay s st,
+  trace lay (s_crash s) (step_prog lay s) st
+  = repeat (shape_of lay st)
+           (if s_crash s =? 0 then s_evals s else Nat.min (s_crash s) (s_evals s)).
+Proof. exact step_trace. Qed.
+
+(* after every history of completed and interrupted calls (any number, any crash point in each)
+   the store is a well-formed chain: the chain before, followed by the rows of the completed calls *)
+Theorem C14_history_chain : forall lay npar steps data probs n,
+  wf lay data probs n -> (lay = ColMajor -> length data = npar) ->
+  Forall (step_ok npar) steps ->
+  let st' := run_history lay steps (data, probs) in
+  let N := n + length (completed_rows steps) in
+  wf lay (fst st') (snd st') N /\
+  all_rows lay (fst st') N = all_rows lay data n ++ completed_rows steps /\
+  snd st' = probs ++ completed_probs steps.
+Proof. exact history_store. Qed.
+
+(* ... and so the three read-outs have the same first dimension and stay aligned row for row:
+   row k of each is entry burn + k*thin of that chain *)
+Theorem C14_readouts_after_interruptions : forall lay npar steps data probs n i burn thin,
+  1 <= thin -> wf lay data probs n -> (lay = ColMajor -> length data = npar /\ i < npar) ->
+  Forall (step_ok npar) steps ->
+  let st' := run_history lay steps (data, probs) in
+  let rows := all_rows lay data n ++ completed_rows steps in
+  let ps := probs ++ completed_probs steps in
+  let L := slice_len (length ps) burn thin in
+  length rows = length ps /\
+  length (get_sample lay (fst st') burn thin) = L /\
+  length (get_parameter lay (fst st') i burn thin) = L /\
+  length (get_probabilities (snd st') burn thin) = L /\
+  forall k, k < L ->
+    burn + k * thin < length ps /\
+    nth k (get_sample lay (fst st') burn thin) [] = nth (burn + k * thin) rows [] /\
+    nth k (get_parameter lay (fst st') i burn thin) 0%Z
+      = nth i (nth (burn + k * thin) rows []) 0%Z /\
+    nth k (get_probabilities (snd st') burn thin) 0%Z = nth (burn + k * thin) ps 0%Z.
+Proof. exact readouts_after_interruptions. Qed.
+
+(* the ordering "all evaluations first, then the writes" is what this rests on: a Gibbs step that
+   stores each parameter's value inside the update loop (NOT the pinned code) is the same when it
+   is not interrupted, but interrupted during the second parameter's update it leaves read-outs
+   of different lengths *)
+Theorem C14_nonatomic_step_refuted :
+  exists es r p k data probs,
+    wf ColMajor data probs 1 /\
+    let st' := run k (gibbs_interleaved_prog es r p) (data, probs) in
+    length (get_parameter ColMajor (fst st') 0 0 1) = 2 /\
+    length (get_parameter ColMajor (fst st') 1 0 1) = 1 /\
+    length (get_probabilities (snd st') 0 1) = 1 /\
+    (forall m, ~ wf ColMajor (fst st') (snd st') m) /\
+    run 0 (gibbs_interleaved_prog es r p) (data, probs)
+    = run_step ColMajor (data, probs) (mkStep 2 [r] [p] 0).
+Proof. exact nonatomic_step_refuted. Qed.
+
+(* non-vacuity: a two-parameter Gibbs chain holding its start; a completed call (3 evaluations),
+   a call interrupted at its 2nd evaluation, a completed call; burn 1 keeps the two new rows *)
+Example C14_history_example :
+  let data := [[10];[20]]%Z in
+  let probs := [5]%Z in
+  let steps := [mkStep 3 [[11;21]] [3] 0; mkStep 4 [[99;98]] [97] 2; mkStep 2 [[12;22]] [6] 0]%Z in
+  wf ColMajor data probs 1 /\ Forall (step_ok 2) steps /\
+  map completed steps = [true; false; true] /\
+  run_history ColMajor steps (data, probs) = ([[10;11;12];[20;21;22]], [5;3;6])%Z /\
+  get_sample ColMajor (fst (run_history ColMajor steps (data, probs))) 1 1 = [[11;21];[12;22]]%Z /\
+  get_probabilities (snd (run_history ColMajor steps (data, probs))) 1 1 = [3;6]%Z.
+Proof.
+  cbv zeta. split; [|split].
+  - split; [reflexivity|]. split; [discriminate|]. repeat constructor.
+  - repeat constructor.
+  - repeat split; vm_compute; reflexivity.
+Qed.
+
 (* ---- the pinned tree (kept as *_pinned definitions in the model) *)
 (* D25: HamiltonianChain.get_parameter squeezes a single retained sample to 0-d *)
 Theorem C14_hmc_squeeze_refuted :
@@ -189,3 +279,8 @@ Print Assumptions C14_interval_fraction.
 Print Assumptions C14_hmc_squeeze_refuted.
 Print Assumptions C14_hmc_empty_sample_refuted.
 Print Assumptions C14_get_interval_count_refuted.
+Print Assumptions C14_interrupted_call_leaves_chain.
+Print Assumptions C14_call_evaluations_see_old_chain.
+Print Assumptions C14_history_chain.
+Print Assumptions C14_readouts_after_interruptions.
+Print Assumptions C14_nonatomic_step_refuted.
